@@ -486,8 +486,10 @@ def oracle_C08(inp):
         if y:
             try:
                 m = y.match(s)
-                alone = list(FindInList([item]).find(s, as_sid=False))
-                if m != (alone == [item] or Sid(s) == y):
+                # "a list containing only itself": the Sid's string (an entry spelled with a uri prefix,
+                # ':hamlet/a', is not the string of the Sid it denotes)
+                alone = list(FindInList([str(y)]).find(s, as_sid=False))
+                if m != (alone == [str(y)] or Sid(s) == y):
                     out.append("%r.match(%r) = %r but find in [itself] gives %r" % (item, s, m, alone))
             except SpilException:
                 pass
